@@ -36,6 +36,9 @@ CLAIMED.update({
  "C13": C("property-based testing: generated graph pairs (positive, near-miss, 2-switch, independent) + metamorphic relabeling; oracle = exhaustive enumeration of injective maps under the definition",
           "is_isomorphic, is_isomorphic_subgraph, the _matching variants (three predicate kinds) and subgraph_isomorphisms_iter (set equality, no duplicates, termination) on Graph and GraphMap, repeated after relabeling both arguments.",
           "the 40-line backtracking enumerator in props/c13.rs", "DESIGN.md section 5, C13"),
+ "C15": C("property-based testing: generated graphs incl. blossom gadgets / flow networks; oracle = validity predicate from mate() + bitmask-DP optimum; capacity/conservation predicate + exhaustive min-cut enumeration",
+          "greedy_matching/maximum_matching on 10 encodings (all Matching accessors cross-checked, size equal to the DP optimum on undirected storage) and ford_fulkerson on Graph and StableGraph with node and edge vacancies (u32 and exact f64 capacities, every s != t).",
+          "the bitmask DP and the cut enumeration in props/c15.rs", "DESIGN.md section 5, C15"),
 })
 PLANNED = {}
 
